@@ -21,23 +21,25 @@ import (
 // C16: copy include/exclude selects exactly the reference set, no extra dirs
 
 type c16Case struct {
-	Tree    *h.Tree  `json:"tree"`
-	Include []string `json:"include"`
-	Exclude []string `json:"exclude"`
-	Dst     *h.Tree  `json:"dst"` // populated destination (nil = empty)
+	Tree          *h.Tree  `json:"tree"`
+	Include       []string `json:"include"`
+	Exclude       []string `json:"exclude"`
+	Dst           *h.Tree  `json:"dst"` // populated destination (nil = empty)
+	AlwaysReplace bool     `json:"alwaysreplace"`
 }
 
 var c16TreeCfg = h.TreeCfg{
 	MaxEntries: 14, MaxDepth: 4,
 	Names:  []string{"a", "b", "c", "ab", "a-b", "a.b", "a0", "d", "x", "foo", "bar", "baz"},
 	Kinds:  []h.Kind{h.KFile, h.KFile, h.KFile, h.KSymlink, h.KFifo},
-	Xattrs: true, SymTargets: []string{"a", "../b", "/c", "dangling"},
+	Xattrs: true, Hardlinks: true, SymTargets: []string{"a", "../b", "/c", "dangling"},
 }
 
 func genC16(t *rapid.T) *c16Case {
 	c := &c16Case{Tree: h.GenTree(t, c16TreeCfg, "t")}
 	c.Include = h.GenPatterns(t, c.Tree, "inc", 3)
 	c.Exclude = h.GenPatterns(t, c.Tree, "exc", 3)
+	c.AlwaysReplace = rapid.IntRange(0, 3).Draw(t, "alwaysreplace") == 0
 	if rapid.IntRange(0, 2).Draw(t, "populated") == 0 {
 		// unrelated old entries plus already-existing copies of some source directories
 		d := &h.Tree{}
@@ -45,6 +47,22 @@ func genC16(t *rapid.T) *c16Case {
 			if n.Kind == h.KDir && rapid.IntRange(0, 2).Draw(t, "olddir"+n.Path) == 0 {
 				if par := path.Dir(n.Path); par == "." || d.Index()[par] != nil {
 					d.Nodes = append(d.Nodes, h.Node{Path: n.Path, Kind: h.KDir, Perm: 0o711, Uid: 42, Gid: 43, Mtime: 4242})
+				}
+			}
+		}
+		// with always-replace: old non-directories sitting where the source has a directory
+		// (replaced if that directory is selected, untouched otherwise)
+		if c.AlwaysReplace {
+			for _, n := range c.Tree.Nodes {
+				if n.Kind != h.KDir || d.Index()[n.Path] != nil || rapid.IntRange(0, 2).Draw(t, "oldatdir"+n.Path) != 0 {
+					continue
+				}
+				if par := path.Dir(n.Path); par == "." || (d.Index()[par] != nil && d.Index()[par].Kind == h.KDir) {
+					old := h.Node{Path: n.Path, Kind: h.KFile, Perm: 0o600, Mtime: 555, Seed: 88, Size: 6}
+					if rapid.Bool().Draw(t, "oldatdirsym"+n.Path) {
+						old = h.Node{Path: n.Path, Kind: h.KSymlink, Target: "old-target", Mtime: 555}
+					}
+					d.Nodes = append(d.Nodes, old)
 				}
 			}
 		}
@@ -141,6 +159,10 @@ func c16Check(env *h.Env, c *c16Case) error {
 	for _, p := range c.Exclude {
 		opts = append(opts, fscopy.WithExcludePattern(p))
 	}
+	if c.AlwaysReplace {
+		opts = append(opts, func(ci *fscopy.CopyInfo) { ci.AlwaysReplaceExistingDestPaths = true })
+		env.Class("always-replace")
+	}
 	cerr := fscopy.Copy(context.Background(), srcDir, "/", dstDir, "/", opts...)
 	if rerr != nil {
 		env.Class("invalid-pattern")
@@ -150,7 +172,29 @@ func c16Check(env *h.Env, c *c16Case) error {
 		return nil
 	}
 	if cerr != nil {
-		return fmt.Errorf("Copy with include=%q exclude=%q failed: %v", c.Include, c.Exclude, cerr)
+		// a source directory that meets an old non-directory is a conflict (C15's rule; always-replace
+		// replaces a *selected* colliding path, never an unselected one or an ancestor): an error is
+		// acceptable then, but an obstacle that is not selected must be left in place
+		conflict := false
+		after, serr := h.Snapshot(dstDir)
+		if serr != nil {
+			return h.Infra(serr)
+		}
+		for a, b := range before {
+			if s := srcSnap[a]; b.Kind != h.KDir && s != nil && s.Kind == h.KDir {
+				conflict = true
+				if !contains(refSet, a) {
+					if x := after[a]; x == nil || !h.SameEntry(x, b, false) {
+						return fmt.Errorf("Copy failed (%v) and the old entry %q, which the patterns do not select, was removed or modified", cerr, a)
+					}
+				}
+			}
+		}
+		if conflict {
+			env.Class("dir-over-nondir-conflict")
+			return nil
+		}
+		return fmt.Errorf("Copy with include=%q exclude=%q always-replace=%v failed: %v", c.Include, c.Exclude, c.AlwaysReplace, cerr)
 	}
 	after, err := h.Snapshot(dstDir)
 	if err != nil {
@@ -291,4 +335,13 @@ func c16Check(env *h.Env, c *c16Case) error {
 
 func TestC16(t *testing.T) {
 	h.Run(t, "C16", genC16, c16Check)
+}
+
+func contains(l []string, s string) bool {
+	for _, x := range l {
+		if x == s {
+			return true
+		}
+	}
+	return false
 }
